@@ -197,9 +197,10 @@ pub fn scenarios(tier: Tier) -> Vec<C01Scn> {
 						v.push(C01Scn {
 							name: format!("{}-feebump{}-then-limit-{}-n{}", n, rate, if tight { "tight" } else { "wide" }, node),
 							ct,
+							// (the estimators move first; the funder notices at its next timer tick)
 							ops: vec![
-								send(0, 1, if tight { 20_000_000 } else { large }, ClaimPolicy::Claim),
 								Op::SetFeeAll { rate },
+								send(0, 1, if tight { 20_000_000 } else { large }, ClaimPolicy::Claim),
 								Op::SetFee { node: 0, rate },
 								Op::Probe { node, chan: 0, kind: ProbeKind::AtLimit },
 							],
